@@ -67,6 +67,8 @@ class Scheduler:
         self.n_points = 0
         self._by_ident = {}
         self.on_point = None          # optional callback(sched) evaluated at every scheduling point (invariants)
+        self.hang_timeout = 60.0      # wall-clock seconds without the execution ending: the running thread makes no progress
+        self.hung_thread = None
         self.max_steps = 200000
 
     # ---------------------------------------------------------------- install / uninstall
@@ -276,7 +278,7 @@ class Scheduler:
             me.sem.acquire()
 
     # ---------------------------------------------------------------- controller side
-    def run(self, timeout=60.0):
+    def run(self, timeout=None):
         """called by the controller thread after the initial drivers were spawned; returns the outcome"""
         if not self.threads:
             self.outcome = "quiescent"
@@ -285,16 +287,21 @@ class Scheduler:
         self.cur = first
         gc.disable()
         first.sem.release()
-        if not self.finished.wait(timeout):
+        if not self.finished.wait(timeout or self.hang_timeout):
             self.outcome = "hang"
+            self.hung_thread = self.cur
+            import os
             import traceback
             frames = sys._current_frames()
-            print("HANG: cur=%r" % self.cur, file=sys.stderr)
-            for t in self.threads:
-                print("  ", t, file=sys.stderr)
-                f = frames.get(t.thread.ident)
-                if f is not None:
-                    print("".join(traceback.format_stack(f)[-14:]), file=sys.stderr)
+            f = frames.get(self.cur.thread.ident) if self.cur is not None else None
+            self.hang_stack = "".join(traceback.format_stack(f)[-6:]) if f is not None else ""
+            if os.environ.get("VF_DEBUG"):
+                print("HANG: cur=%r" % self.cur, file=sys.stderr)
+                for t in self.threads:
+                    print("  ", t, file=sys.stderr)
+                    f = frames.get(t.thread.ident)
+                    if f is not None:
+                        print("".join(traceback.format_stack(f)[-14:]), file=sys.stderr)
         return self.outcome
 
     def teardown(self):
@@ -304,7 +311,15 @@ class Scheduler:
             t.sem.release()
         leaked = []
         for t in self.threads:
-            _orig_join(t.thread, 5.0)
+            _orig_join(t.thread, 5.0 if self.outcome != "hang" else 0.2)
+            if t.thread.is_alive():
+                # a thread that spins without ever reaching a scheduling point (only possible after a 'hang'): unwind it asynchronously
+                import ctypes
+                for _ in range(50):
+                    ctypes.pythonapi.PyThreadState_SetAsyncExc(ctypes.c_ulong(t.thread.ident), ctypes.py_object(AbortExecution))
+                    _orig_join(t.thread, 0.2)
+                    if not t.thread.is_alive():
+                        break
             if t.thread.is_alive():
                 leaked.append(t)
         self.uninstall()
